@@ -315,3 +315,20 @@ func hTimeoutConnectAnyString() {
 		verifAssert(err != nil, "malformed Connect-Timeout-Ms rejected")
 	}
 }
+
+// hTimeoutGrpcTooLong: the gRPC wire format allows at most 8 digits: a Grpc-Timeout of 9 to 20 digits (every
+// digit symbolic) followed by any unit is malformed and must be rejected, never turned into "no deadline".
+func hTimeoutGrpcTooLong() {
+	n := []int{9, 10, 19, 20}[verifChoose("digits", 4)]
+	digits := nondetBytes("digit", n)
+	for _, d := range digits {
+		verifAssume(d >= '0' && d <= '9')
+	}
+	unit := "HMSmun"[verifChoose("unit", 6)]
+	hdr := append(append([]byte(nil), digits...), unit)
+	in := http.Header{"Grpc-Timeout": {string(hdr)}, "Content-Type": {"application/grpc"}}
+	_, err := grpcClientProtocol{}.extractProtocolRequestHeaders(nil, in)
+	verifObsBool("rejected", err != nil)
+	verifReach("too-many-digits")
+	verifAssert(err != nil, "Grpc-Timeout with more than 8 digits rejected")
+}
